@@ -55,7 +55,15 @@ func (r *yieldRewriter) rewriteRanges(block *ast.BlockStmt) {
 			case *types.Array:
 				// typing workaround for abstract generic array iter
 				// type can't be infered from array, so we wrap it with slice
-				typeInfered := &ast.SliceExpr{X: n.X}
+				operand := n.X
+				if tv, ok := r.pkg.TypesInfo.Types[n.X]; ok && !tv.Addressable() {
+					// an array value that cannot be sliced in place (a call, a
+					// composite literal, ...): evaluate it into a temporary first
+					tmp := X.Ident(r.gensym(cstIterVar) + cstArrayTmpSuffix)
+					c.InsertBefore(X.Define(tmp, n.X))
+					operand = tmp
+				}
+				typeInfered := &ast.SliceExpr{X: operand}
 				do(cstNewSliceIter, typeInfered)
 			case *types.Slice:
 				do(cstNewSliceIter, n.X)
